@@ -9,7 +9,7 @@ import json, os, re, importlib.util
 import vcommon as V
 
 META = dict(
-    text="Lean 4, on the executable model of the code that exists (Model/VM.lean, Model/Gen.lean; tied to zygo/environment.go PrepareCallExprArgs/CallResolved/Apply, vm.go CallExprInstr/PushLazyArgInstr, expressions.go SexpLazyArg.Force/IsLazyCallArg, functions.go ForceFunction/SubstituteFunction, generator.go GenerateCallArgsForFunction by the `lazy` correspondence). Proved for every function object, argument list, machine state and amount of fuel (Props/C16.lean, 22 theorems): (a) preparing a call is its plan — a lazy position is `allocThunk` (one thunk with the expression, the current scope stack and function; one operand) and runs nothing, a strict position is exactly one evalCallExpr whose value is the operand, in order, all before callFunction (position forms lazy_not_evaluated_at_call / strict_args_evaluated_once_before_call, closed form for all-lazy calls, same effect for the compile-time PushLazyArgInstr); (b) force_memoises: a successful force stores its value, and after ANY further activity of the machine (Reach: instructions, calls, applies, forces, later program texts, failed or not) every force returns it with the state — trace included — unchanged; this rests on allPres (Proofs/Lazy.lean): all 13 mutually recursive functions of the machine, every instruction and outcome, only extend the thunk table (expression, captured stack, function immutable; a stored value stays); (c) force_in_callers_env: the thunk keeps the call site's scope stack and function for ever and force runs the compiled expression on exactly that stack inside a function closed over it with the call site's function as parent; lookups there equal the call site's lookups (force_lookup_is_callsite_lookup_partial, two hypotheses named); (d) strict_never_receives_thunk: the run-time, compile-time (self tail call) and apply/map decisions are one predicate of the function object the callee evaluated to, so name/alias/parameter/computed callee cannot differ (every non-tail call is one CallExprInstr: callee value first); variadic tails, Go builtins and unknown callees are strict; apply hands lazy positions already-forced value thunks; (e) source_recoverable: substitute returns the expression the thunk was made from, unevaluated, at any later time. The full statement LazySemantics (machine = call-by-need reference evaluator on class, value, trace for all programs) is stated, not proved; it is held by the 3-way correspondence of channel `lazy`: scenario generators over every mix of lazy/strict/variadic parameters x 16 call routes (direct, alias, parameter, three computed callees, apply array/list, map array/list, wrappers with locals / lazy parameter / closure over the free variable, recursion, self tail call, self tail call with a nested same-name defn, typed func) x argument expressions with effects, errors, free variables x 17 use patterns (0/1/2/3 forces, nested closure, kept and forced in later texts, substitute, thunk of thunk, through strict/lazy/ignoring helpers, shadowing let) plus an exhaustive small scope and a malformed stream.",
+    text="Lean 4, on the executable model of the code that exists (Model/VM.lean, Model/Gen.lean; tied to zygo/environment.go PrepareCallExprArgs/CallResolved/Apply, vm.go CallExprInstr/PushLazyArgInstr, expressions.go SexpLazyArg.Force/IsLazyCallArg, functions.go ForceFunction/SubstituteFunction, generator.go GenerateCallArgsForFunction by the `lazy` correspondence). Proved for every function object, argument list, machine state and amount of fuel (Props/C16.lean, 23 theorems): (a) preparing a call is its plan — a lazy position is `allocThunk` (one thunk with the expression, the current scope stack and function; one operand) and runs nothing, a strict position is exactly one evalCallExpr whose value is the operand, in order, all before callFunction (position forms lazy_not_evaluated_at_call / strict_args_evaluated_once_before_call, closed form for all-lazy calls, same effect for the compile-time PushLazyArgInstr); (b) force_memoises: a successful force stores its value, and after ANY further activity of the machine (Reach: instructions, calls, applies, forces, later program texts, failed or not) every force returns it with the state — trace included — unchanged; this rests on allPres (Proofs/Lazy.lean): all 13 mutually recursive functions of the machine, every instruction and outcome, only extend the thunk table (expression, captured stack, function immutable; a stored value stays); (c) force_in_callers_env: the thunk keeps the call site's scope stack and function for ever and force runs the compiled expression on exactly that stack inside a function closed over it with the call site's function as parent; lookups there equal the call site's lookups (force_lookup_is_callsite_lookup_partial, two hypotheses named); (d) strict_never_receives_thunk: the run-time, compile-time (self tail call) and apply/map decisions are one predicate of the function object the callee evaluated to, so name/alias/parameter/computed callee cannot differ (every non-tail call is one CallExprInstr: callee value first); variadic tails, Go builtins and unknown callees are strict; apply hands lazy positions already-forced value thunks; (e) source_recoverable: substitute returns the expression the thunk was made from, unevaluated, at any later time. The full statement LazySemantics (machine = call-by-need reference evaluator on class, value, trace for all programs) is stated, not proved; it is held by the 3-way correspondence of channel `lazy`: scenario generators over every mix of lazy/strict/variadic parameters x 16 call routes (direct, alias, parameter, three computed callees, apply array/list, map array/list, wrappers with locals / lazy parameter / closure over the free variable, recursion, self tail call, self tail call with a nested same-name defn, typed func) x 13 argument kinds (effects, errors, free variables, and expressions that only READ mutable state: bare variable, compound, closure calls) x mutation points (the callee changes that state before any use / between parameters / between two forces; later texts change it before and between forces of a kept thunk) x 19 use patterns (0/1/2/3 forces, nested closure, kept and forced in later texts, substitute, thunk of thunk, through strict/lazy/ignoring helpers, shadowing let) plus an exhaustive small scope and a malformed stream.",
     note="Trusted: Lean kernel; axioms propext/Classical.choice/Quot.sound. Model/VM.lean, Model/Gen.lean are hand-written and tied to the Go code only by differential testing (channels `lazy`, `eval`); Model/Prim.lean (builtins on values) and Model/LazySrc.lean (source shown as data) are shared by model and reference. Not proved: the execution half of the VM/reference simulation (binding operand i to formal i in the prologue; lookups of the forced expression beyond the partial theorem) — C02's CompileCorrect. Typed `func` declarations are not modelled: such ops are judged implementation vs reference after rewriting `func` to the `defn` it abbreviates (model column informational, stack depths not compared: FuncBuilder leaves one operand, C04's subject). By design of both sides a FAILED force stores nothing (a later force re-runs the expression) and a thunk forced re-entrantly from inside its own evaluation runs once per nesting level. Duplicate parameter names and (set #x ..) (silently ignored by UpdateInstr for sigil symbols) are outside the property and not generated.",
     technique="Lean 4 theorems over the executable VM model (whole-machine invariant by induction over the 13-function mutual block with a small program logic) and the call-by-need reference evaluator; 3-way model/spec/implementation correspondence through the line protocol (channel `lazy`)",
     design_ref="DESIGN.md §7 C16, §13; notes/C16.md",
@@ -28,6 +28,12 @@ _D = re.compile(r" D\[[^\]]*\]")
 def strip_depths(ans):
     return _D.sub("", ans)
 
+def norm_timeouts(ans):
+    """Of a text that did not terminate only the class is compared (the two sides bound work
+    differently). Done per record here because a trace may itself contain `]` (arrays), which
+    C02's regular expression does not expect."""
+    return " ;; ".join("timeout - T[*]" if r.startswith("timeout ") else r for r in ans.split(" ;; "))
+
 def prejudge(rows):
     """Ops flagged +std use typed `func` declarations, which neither the VM model nor the
     reference evaluator knows: the driver rewrites them to the `defn` they abbreviate. They are
@@ -39,6 +45,7 @@ def prejudge(rows):
         if op.startswith("lazy +std "):
             nstd += 1
             impl, model = strip_depths(impl), strip_depths(model)
+        impl, model = norm_timeouts(impl), norm_timeouts(model)
         if '"?source"' in model:
             # `substitute` was asked for the source of a form the elaborator rejects (`bad`,
             # `assign`: only the malformed stream does that). The model's `Expr` keeps no source for
@@ -85,7 +92,7 @@ def run(rep):
     rep.coverage["channels"]["lazy"]["model_abstains_source_of_rejected_form"] = nabst
     rep.coverage["exhaustive"] = False
     rep.coverage["proved"] = ("Props/C16.lean: prepare_is_plan, lazy_not_evaluated_at_call (+_all_lazy, _pushLazy, allocThunk_effect), "
-                              "force_returns_memo, force_memoises, machine_extends_thunk_table (allPres), thunk_keeps_call_site, force_in_callers_env, "
+                              "force_returns_memo, force_memoises, machine_extends_thunk_table (allPres), thunk_keeps_call_site, force_in_callers_env, force_reads_at_force_time, "
                               "strict_args_evaluated_once_before_call, call_prepares_then_enters, every_call_route_resolves_at_run_time, "
                               "strict_never_receives_thunk, apply_wraps_values, apply_lazy_position_gets_forced_thunk, self_tail_call_uses_own_template, "
                               "self_tail_call_lazy_position, source_recoverable, reference_is_call_by_need; all for every function object, argument "
@@ -93,9 +100,9 @@ def run(rep):
     rep.coverage["partial"] = ("force_lookup_is_callsite_lookup_partial (hypotheses: closure-chain fuel adequacy, main's captured scopes add nothing); "
                                "lazy_semantics_partial: LazySemantics (machine = reference on all programs) is stated, not proved — missing the "
                                "execution simulation (C02 CompileCorrect F0-F3), held by the `lazy` correspondence of this run")
-    rep.coverage["rule"] = ("histories of 1-4 texts: 52 hand-written; exhaustive small scope (parameter lists of length 1-2 over {lazy,strict} x rest "
-                            "{none, r, #r} x 16 routes x 5 force patterns x 3 argument kinds; one third per quick run rotating with the seed, all in "
-                            "thorough); random scenarios (0-3 parameters, 9 argument kinds, 17 use patterns, follow-up texts forcing kept thunks); "
+    rep.coverage["rule"] = ("histories of 1-5 texts: 57 hand-written; exhaustive small scope (parameter lists of length 1-2 over {lazy,strict} x rest "
+                            "{none, r, #r} x 16 routes x 6 use patterns x 4 argument kinds, state-reading kinds with the three mutation modes; one third per quick run rotating with the seed, all in "
+                            "thorough); random scenarios (0-3 parameters, 13 argument kinds, 19 use patterns, 4 mutation modes, follow-up texts forcing kept thunks); "
                             "malformed stream (one tree mutation or an arity error of the outer call); typed `func` scenarios (+std)")
     rep.assumptions += [
         "Model/VM.lean, Model/Gen.lean are hand-written; tied to the Go code by the `lazy`/`eval` correspondence only (class, value, trace, four stack depths per text)",
